@@ -429,6 +429,8 @@ class Interp:
     def truth(self, v, node=None):
         if isinstance(v, bool):
             return v
+        if isinstance(v, z3.BoolRef):
+            return v
         if v is None:
             return False
         if isinstance(v, Sym):
@@ -444,6 +446,9 @@ class Interp:
             return len(v) > 0
         if isinstance(v, tuple):
             return len(v) > 0
+        if isinstance(v, NanReal):
+            # NaN is truthy, 0.0 is falsy
+            return self.disj([v.isnan, self.truth(v.val, node)])
         if isinstance(v, SOpt):
             tv = self.truth(v.val, node)
             tvz = tv if not isinstance(tv, bool) else z3.BoolVal(tv)
@@ -657,6 +662,15 @@ class Interp:
             return r if isinstance(r, bool) else self.mk(r, "bool")
         a = self.force(a, node)
         b = self.force(b, node)
+        if isinstance(a, NanReal) or isinstance(b, NanReal):
+            # IEEE: every ordering comparison involving NaN is False
+            an = a.isnan if isinstance(a, NanReal) else False
+            bn = b.isnan if isinstance(b, NanReal) else False
+            av = a.val if isinstance(a, NanReal) else a
+            bv = b.val if isinstance(b, NanReal) else b
+            inner = self.compare(op, av, bv, node)
+            r = self.conj([self.neg(an), self.neg(bn), self.as_bool_term(inner) if not isinstance(inner, bool) else inner])
+            return r if isinstance(r, bool) else self.mk(r, "bool")
         ka, kb = self.kind_of(a), self.kind_of(b)
         if isinstance(a, tuple) and isinstance(b, tuple):
             return self.tuple_order(op, a, b, node)
@@ -736,6 +750,19 @@ class Interp:
             return z3.And(z3.Not(b.isnone), inner)
         if a is None or b is None:
             return a is None and b is None
+        if isinstance(a, NanReal) or isinstance(b, NanReal):
+            an = a.isnan if isinstance(a, NanReal) else False
+            bn = b.isnan if isinstance(b, NanReal) else False
+            av = a.val if isinstance(a, NanReal) else a
+            bv = b.val if isinstance(b, NanReal) else b
+            if av is None or bv is None or isinstance(av, (SObj, SList, tuple)) or isinstance(bv, (SObj, SList, tuple)):
+                return False
+            if self.in_spec or self.nofork:
+                # specification-level equality: NaN equals NaN (same abstract value)
+                both = self.conj([an, bn])
+                neither = self.conj([self.neg(an), self.neg(bn), self.equal(av, bv, node)])
+                return self.disj([both, neither])
+            return self.conj([self.neg(an), self.neg(bn), self.equal(av, bv, node)])
         ka, kb = self.kind_of(a), self.kind_of(b)
         if ka is not None and kb is not None:
             num = ("int", "real", "bool")
@@ -803,6 +830,10 @@ class Interp:
         raise Unsupported("equality of %r and %r" % (a, b), node)
 
     @staticmethod
+    def neg(x):
+        return (not x) if isinstance(x, bool) else z3.Not(x)
+
+    @staticmethod
     def conj(xs):
         ts = []
         for x in xs:
@@ -868,6 +899,15 @@ class Interp:
             av = a.val if isinstance(a, SOpt) else a
             bv = b.val if isinstance(b, SOpt) else b
             return SOpt(z3.If(c, an, bn), self.ite(c, av, bv, node))
+        if isinstance(a, NanReal) or isinstance(b, NanReal):
+            if (isinstance(a, NanReal) or self.kind_of(a) in ("int", "real")) and (isinstance(b, NanReal) or self.kind_of(b) in ("int", "real")):
+                an = a.isnan if isinstance(a, NanReal) else False
+                bn = b.isnan if isinstance(b, NanReal) else False
+                av = a.val if isinstance(a, NanReal) else a
+                bv = b.val if isinstance(b, NanReal) else b
+                anz = z3.BoolVal(an) if isinstance(an, bool) else an
+                bnz = z3.BoolVal(bn) if isinstance(bn, bool) else bn
+                return NanReal(z3.simplify(z3.If(c, anz, bnz)), self.ite(c, av, bv, node))
         ka, kb = self.kind_of(a), self.kind_of(b)
         if ka is not None and kb is not None:
             if ka == kb:
@@ -1341,6 +1381,8 @@ class Interp:
             if t.kind == "none":
                 return None
             return self.fresh_scalar(t.kind, name)
+        if isinstance(t, S._NanRealT):
+            return NanReal(z3.Bool(self.fresh_name(name + ".isnan")), self.fresh_scalar("real", name))
         if isinstance(t, S.Lit):
             v = t.value
             return Fraction(repr(v)) if isinstance(v, float) else v
